@@ -36,11 +36,13 @@ package fsmservice
 //@   assert@call Set[C08.save.key] key == fsm.stateKey && content(value) == content(loc(fsmInstancesBz))
 //@   ensures[C08.save.once] $kvWrites <= old($kvWrites) + 1
 
-// an unknown round is created (and stored) only when it is really missing and creation was asked for
+// an unknown round is created only when it is really missing and creation was asked for; looking a round up - creating
+// it or not - writes nothing to the store: the caller stores the round once a message for it has been accepted, so a
+// refused message with an unknown round identifier leaves nothing behind (C18, defect D18 repaired)
 //@ func (*FSM).GetFSMInstance
 //@   nosafety
 //@   requires fsm != nil
 //@   modifies *
-//@   modifies $fsmLoaded, $loadStamp, $kv, $kvHas, $kvWrites, $lastSetKey, $bufc
-//@   assert@call SaveFSM[C08.create.onlymissing] !loc(ok) && createIfMissing && dkgRoundID == arg0
-//@   ensures[C08.create.nowrite] !createIfMissing ==> $kvWrites == old($kvWrites)
+//@   modifies $fsmLoaded, $loadStamp, $bufc
+//@   assert@call Create[C08.create.onlymissing] !loc(ok) && createIfMissing && dkgRoundID == arg0
+//@   ensures[C08.create.nowrite,C18.node.nocreate] $kvWrites == old($kvWrites)
